@@ -13,7 +13,11 @@
    in Lexer/Proofs.v, `tag_re_anchor`); the flag is the parameter [dotall] of every function.
 
    Reuse (C10a): [django_lex], [parse_template], and the theorems `eq_stock_when_no_quote`,
-   `eq_stock_when_quotes_closed` of Props/C09.v. *)
+   `eq_stock_when_quotes_closed`, `eq_stock_when_stock_close_unquoted` of Lexer/Proofs.v (restated in Props/C09.v).
+
+   The file has two parts: the M-model (transliteration of the three functions) and, at the end, the S-model:
+   [qstate]/[qrun] ("inside a quoted string"), [find_uclose] (first percent-brace outside quoted strings) and
+   [spec_go]/[spec_lex] (one-pass reference lexer).  Lexer/Proofs.v proves parse_template = spec_lex. *)
 From Coq Require Import String.
 From DJC Require Import Lib.Base.
 
@@ -152,16 +156,16 @@ Definition django_lex_v (dotall : bool) (v : option str) (s : str) : list tok :=
 Definition django_lex (dotall : bool) (s : str) : list tok := django_lex_v dotall None s.
 
 (* ---------- _detailed_tag_parser ---------- *)
-(* The scan after the opening brace-percent is a character automaton.  The implementation consumes runs
-   with three regexes (not-quote-or-percent*, not-quote*, (backslash-any | not-q)* ) - run by run this is:
+(* The scan after the opening brace-percent is a character automaton.  The implementation consumes runs with
+   regexes (not-quote-or-percent*, (backslash-any | not-q)* ) and single characters - character by character:
      MNormal      outside strings
-     MPct         just read a '%' outside strings (the code peeks one character ahead)
-     MToQuote     after a '%' that was not followed by '}': `take_until_any(QUOTE_CHARS)` - everything up
-                  to the next quote character is content (INCLUDING any percent-brace)
+     MPct         just read a '%' outside strings (the code peeks one character ahead: a closing brace ends the
+                  tag; otherwise the '%' is one character of content and the next character is read as in
+                  MNormal - since fix fbbed58)
      MQuote q     inside a q-quoted string
      MEsc q       just read a backslash inside a q-quoted string (backslash-any; before a newline the backslash
                   is matched by not-q and the newline by not-q - the same two characters are consumed)     *)
-Inductive smode := MNormal | MPct | MToQuote | MQuote (q : N) | MEsc (q : N).
+Inductive smode := MNormal | MPct | MQuote (q : N) | MEsc (q : N).
 Inductive scan := Closed (n : nat) | EndIn (m : smode).
 
 (* n = index (in the text passed to _detailed_tag_parser) of the character being read;
@@ -176,8 +180,8 @@ Fixpoint dfa_run (m : smode) (s : str) (n : nat) : scan :=
                    else dfa_run MNormal r (S n)
       | MPct => if N.eqb c c_rbrace then Closed (S n)
                 else if is_quote c then dfa_run (MQuote c) r (S n)
-                else dfa_run MToQuote r (S n)
-      | MToQuote => if is_quote c then dfa_run (MQuote c) r (S n) else dfa_run MToQuote r (S n)
+                else if N.eqb c c_pct then dfa_run MPct r (S n)
+                else dfa_run MNormal r (S n)
       | MQuote q => if N.eqb c q then dfa_run MNormal r (S n)
                     else if N.eqb c c_bslash then dfa_run (MEsc q) r (S n)
                     else dfa_run (MQuote q) r (S n)
@@ -246,110 +250,82 @@ Fixpoint pt_go (fuel : nat) (dotall : bool) (s : str) (index_start lineno_offset
 Definition parse_template (dotall : bool) (s : str) : pres :=
   pt_go (S (length s)) dotall s 0 0 None [].
 
-(* ---------- specification-level scan (what the property asks of a quoted tag) ---------- *)
-(* the closing percent-brace is the first one outside quoted strings: the same automaton without MToQuote -
-   a '%' that is not followed by '}' is ordinary content. *)
-Inductive qmode := QNormal | QPct | QQuote (q : N) | QEsc (q : N).
-Inductive qscan := QClosed (n : nat) | QEndIn (m : qmode).
-Fixpoint spec_run (m : qmode) (s : str) (n : nat) : qscan :=
+(* ====================================================================================== *)
+(* SPECIFICATION LEVEL (S-model): what the property asks, written without the mechanism     *)
+(* ====================================================================================== *)
+(* "inside / outside a quoted string" - a fold over the characters that does not look at percent signs or
+   braces at all: a quote character opens a string, the same character closes it, a backslash inside a string
+   protects the next character. *)
+Inductive qstate := QOut | QIn (q : N) | QEsc (q : N).
+Definition qstep (st : qstate) (c : N) : qstate :=
+  match st with
+  | QOut => if is_quote c then QIn c else QOut
+  | QIn q => if N.eqb c q then QOut else if N.eqb c c_bslash then QEsc q else QIn q
+  | QEsc q => QIn q
+  end.
+Definition qrun (st : qstate) (p : str) : qstate := fold_left qstep p st.
+(* the state in which the character at index j of s is read *)
+Definition qstate_at (s : str) (j : nat) : qstate := qrun QOut (firstn j s).
+Definition is_qout (st : qstate) : bool := match st with QOut => true | _ => false end.
+
+(* first index j with s[j..j+2) = percent-brace read outside quoted strings (st = state at index 0) *)
+Fixpoint find_uclose (st : qstate) (s : str) : option nat :=
   match s with
-  | [] => QEndIn m
+  | [] => None
   | c :: r =>
-      match m with
-      | QNormal => if is_quote c then spec_run (QQuote c) r (S n)
-                   else if N.eqb c c_pct then spec_run QPct r (S n)
-                   else spec_run QNormal r (S n)
-      | QPct => if N.eqb c c_rbrace then QClosed (S n)
-                else if is_quote c then spec_run (QQuote c) r (S n)
-                else if N.eqb c c_pct then spec_run QPct r (S n)
-                else spec_run QNormal r (S n)
-      | QQuote q => if N.eqb c q then spec_run QNormal r (S n)
-                    else if N.eqb c c_bslash then spec_run (QEsc q) r (S n)
-                    else spec_run (QQuote q) r (S n)
-      | QEsc q => spec_run (QQuote q) r (S n)
+      if is_qout st && N.eqb c c_pct && match r with y :: _ => N.eqb y c_rbrace | [] => false end then Some 0
+      else option_map S (find_uclose (qstep st c) r)
+  end.
+
+Definition err_of_qstate (st : qstate) : perr :=
+  match st with QIn q | QEsc q => EUntermString q | QOut => EUntermTag end.
+
+(* One-pass reference lexer: stock Django's loop ([lex_go]) in which a block tag that stock would emit as a BLOCK
+   token with a quote character in its contents ends at the first percent-brace outside its quoted strings
+   instead of at the first percent-brace.  Everything else - text runs, variables, comments, the verbatim state
+   machine of Lexer.create_token, positions, line numbers - is stock.  An unterminated string / tag is the error
+   of the whole run. *)
+Definition pcons (t : tok) (r : pres) : pres := match r with POk l => POk (t :: l) | e => e end.
+Definition pprepend (l : list tok) (r : pres) : pres := match r with POk l' => POk (l ++ l') | e => e end.
+
+(* Lexer.verbatim after a BLOCK token with the given contents, stock rule (create_token) *)
+Definition verbatim_after_block (v : option str) (contents : str) : option str :=
+  match v with
+  | Some _ => None
+  | None => if is_verbatim_start contents then Some (kw_end ++ contents) else None
+  end.
+
+Fixpoint spec_go (fuel : nat) (dotall : bool) (v : option str) (s : str) (pos line : nat) : pres :=
+  match fuel with
+  | O => POk []
+  | S f =>
+      match s with
+      | [] => POk []
+      | _ :: _ =>
+          match tag_at dotall s with
+          | Some len =>
+              let raw := firstn len s in
+              let '(t, v') := create_token v raw pos line in
+              if is_broken t then
+                match find_uclose QOut (skipn 2 s) with
+                | Some j =>
+                    let n := j + 4 in
+                    let contents := strip (firstn j (skipn 2 s)) in
+                    pcons (mkTok TBlock contents pos (pos + n) line)
+                          (spec_go f dotall (verbatim_after_block v contents) (skipn n s) (pos + n)
+                                   (line + count_nl (firstn n s)))
+                | None => PErr (err_of_qstate (qrun QOut (skipn 2 s)))
+                end
+              else pcons t (spec_go f dotall v' (skipn len s) (pos + len) (line + count_nl raw))
+          | None =>
+              let len := text_run dotall s in
+              let raw := firstn len s in
+              pcons (mkTok TText raw pos (pos + len) line)
+                    (spec_go f dotall v (skipn len s) (pos + len) (line + count_nl raw))
+          end
       end
   end.
-
-Definition err_of_qmode (m : qmode) : perr :=
-  match m with QQuote q | QEsc q => EUntermString q | _ => EUntermTag end.
-
-Definition detailed_q (text : str) (lineno start_index : nat) : perr + tok :=
-  match spec_run QNormal (skipn 2 text) 2 with
-  | QClosed n => inr (mkTok TBlock (strip (slice text 2 (n - 2))) start_index (n + start_index) lineno)
-  | QEndIn m => inl (err_of_qmode m)
-  end.
-
-(* S-model of parse_template: the same loop with the specification scan *)
-Fixpoint pt_go_spec (fuel : nat) (dotall : bool) (s : str) (index_start lineno_offset : nat)
-         (verbatim : option str) (acc : list tok) : pres :=
-  match fuel with
-  | O => POutOfFuel
-  | S f =>
-      if Nat.leb (length s) index_start then POk acc
-      else
-        let toks := map (shift_tok index_start lineno_offset)
-                        (django_lex_v dotall verbatim (skipn index_start s)) in
-        match split_broken toks with
-        | (good, None) => POk (acc ++ good)
-        | (good, Some b) =>
-            match detailed_q (skipn (tstart b) s) (tline b) (tstart b) with
-            | inl e => PErr e
-            | inr fixed =>
-                let index_start' := tend fixed in
-                let off' := tline fixed - 1 + count_nl (slice s (tstart b) index_start') in
-                pt_go_spec f dotall s index_start' off' (next_verbatim fixed) (acc ++ good ++ [fixed])
-            end
-        end
-  end.
-Definition parse_template_spec (dotall : bool) (s : str) : pres :=
-  pt_go_spec (S (length s)) dotall s 0 0 None [].
-
-(* The input class in which implementation and specification can differ (trigger c09-lone-percent): the scan of
-   some re-parsed tag enters MToQuote, i.e. meets, outside strings, a percent sign followed by a character that
-   is neither a closing brace nor a quote.  [enters_toquote] decides it for one scan, [lone_pct_free] for a
-   whole source (it follows the loop of parse_template). *)
-Fixpoint enters_toquote (m : smode) (s : str) : bool :=
-  match s with
-  | [] => false
-  | c :: r =>
-      match m with
-      | MNormal => if is_quote c then enters_toquote (MQuote c) r
-                   else if N.eqb c c_pct then enters_toquote MPct r
-                   else enters_toquote MNormal r
-      | MPct => if N.eqb c c_rbrace then false
-                else if is_quote c then enters_toquote (MQuote c) r
-                else true
-      | MToQuote => true
-      | MQuote q => if N.eqb c q then enters_toquote MNormal r
-                    else if N.eqb c c_bslash then enters_toquote (MEsc q) r
-                    else enters_toquote (MQuote q) r
-      | MEsc q => enters_toquote (MQuote q) r
-      end
-  end.
-
-Fixpoint lone_pct_free_go (fuel : nat) (dotall : bool) (s : str) (index_start lineno_offset : nat)
-         (verbatim : option str) : bool :=
-  match fuel with
-  | O => true
-  | S f =>
-      if Nat.leb (length s) index_start then true
-      else
-        let toks := map (shift_tok index_start lineno_offset)
-                        (django_lex_v dotall verbatim (skipn index_start s)) in
-        match split_broken toks with
-        | (_, None) => true
-        | (_, Some b) =>
-            negb (enters_toquote MNormal (skipn 2 (skipn (tstart b) s)))
-            && match detailed (skipn (tstart b) s) (tline b) (tstart b) with
-               | inl _ => true
-               | inr fixed =>
-                   lone_pct_free_go f dotall s (tend fixed)
-                     (tline fixed - 1 + count_nl (slice s (tstart b) (tend fixed))) (next_verbatim fixed)
-               end
-        end
-  end.
-Definition lone_pct_free (dotall : bool) (s : str) : bool :=
-  lone_pct_free_go (S (length s)) dotall s 0 0 None.
+Definition spec_lex (dotall : bool) (s : str) : pres := spec_go (length s) dotall None s 0 1.
 
 (* ---------- correspondence cases ---------- *)
 Definition toktype_code (t : toktype) : N :=
